@@ -890,7 +890,9 @@ class Model(Object):
 
                         if remove_orphans and len(gene._reaction) == 0:
                             self.genes.remove(gene)
+                            gene._model = None
                             if context:
+                                context(partial(setattr, gene, "_model", self))
                                 context(partial(self.genes.add, gene))
                             for group in self.get_associated_groups(gene):
                                 group.remove_members([gene])
